@@ -673,8 +673,12 @@ func (h *handler1) checkPacketLegal(pkt snPkts.Packet) error {
 		return nil
 	// Handler is switched to disconnected state _before_ client
 	// responds to DISCONNECT => we must enable DISCONNECT packet.
+	// A DISCONNECT with a sleep duration would put a client which has
+	// never connected to the asleep state.
 	case *snPkts1.Disconnect:
-		return nil
+		if snPkt.Duration == 0 {
+			return nil
+		}
 	case *snPkts1.Publish:
 		// QOS 3 packets with short or predefined topics are allowed
 		// without prior CONNECT.
